@@ -238,8 +238,10 @@ func TestC19_S1SaveLoad(t *testing.T) {
 			"non-trivial = >=1 entry expired between save and load and >=1 survivor with a finite deadline, or a bounded target smaller than the saved weight",
 		Profile: &vh.Profile{Name: "c19", Executors: []int{vh.ExecInline}, MinLen: 2, MaxLen: 40, MaxKeys: 8,
 			Ops: with(vh.BaseOps(), "saveload", 8, "set", 24, "advance", 10, "advanceto", 3, "get", 3, "bulkget", 1, "refresh", 1, "bulkrefresh", 1, "invalidateall", 0)},
-		Facets:     vh.FRet | vh.FVis | vh.FPanic,
-		NonTrivial: func(r *vh.Runner) bool { return r.St.SaveLoadSurvivor > 0 || (r.St.SaveLoads > 0 && r.Cfg.Bound != vh.BoundNone) },
+		Facets: vh.FRet | vh.FVis | vh.FPanic,
+		NonTrivial: func(r *vh.Runner) bool {
+			return r.St.SaveLoadSurvivor > 0 || (r.St.SaveLoads > 0 && r.Cfg.Bound != vh.BoundNone)
+		},
 		Classes: func(r *vh.Runner) []string {
 			var c []string
 			if r.St.SaveLoads > 0 {
